@@ -114,10 +114,26 @@ class C11Part(qw.WirePart):
         return bad
 
     def nontrivial_key(self, hist, impl_out):
+        # called once per history by the runner: also the place where the measured figures are accumulated
         sig = set()
         for l in impl_out:
             g = parse_codes(l) if l[:4] in ("PFX ", "COR ") else None
-            if g and g["size"] > 8:
+            if not g:
+                continue
+            both = g["bytes"] + g["stream"]
+            if g["op"] == "PFX":
+                self.count("images_all_prefixes_run")          # exhaustive: every length 0..size-1 on both paths
+                self.count("prefix_cases", len(both))
+                self.count("prefix_rejected_by_throw", both.count("t"))
+                self.count("prefix_safety_events", sum(1 for c in both if c in qw.SAFETY))
+                self.count("prefix_accepted", sum(1 for c in both if c in "ade"))
+            else:
+                self.count("images_corrupted")
+                self.count("corrupt_cases", len(both) - both.count("s"))
+                self.count("corrupt_rejected_by_throw", both.count("t"))
+                self.count("corrupt_accepted_usable", sum(1 for c in both if c in "ade"))
+                self.count("corrupt_safety_events", sum(1 for c in both if c in qw.SAFETY))
+            if g["size"] > 8:
                 sig.add((g["kind"], min(g["size"] // 64, 8)))
         return tuple(sorted(sig)) if sig else None
 
@@ -147,6 +163,11 @@ class C11Quant(Spec):
 
     def parts(self):
         return PARTS
+
+    def extra_stages(self, rep, tier, rng, broken):
+        for p in PARTS:
+            p._rep, p.stats = rep, {}
+        rep.cov["exhaustive_prefixes_per_image"] = True
 
 
 SPEC = C11Quant()
